@@ -29,5 +29,4 @@ def explore(tier, shard, nshards, agg):
 
 
 def replay(case):
-    print(case)
-    return 0
+    return pstate.replay(case, 'C13')
